@@ -13,7 +13,7 @@ LEVEL = "fault_enumeration"
 RULE = ("histories of up to 3 (quick) / 4 (thorough) actions from {request with a per-transmission fault class, close(), "
         "event-loop change (asyncio.run boundary), idle connection drop by the peer} followed by a request against a healthy "
         "peer and a final close(); x {udp, tcp} x keep-alive; socket open/close events of the real asyncio transports are "
-        "counted at every event and at quiescent points (after each call returns + 2 loop iterations); a concurrent part: a queued caller cancelled, close() at four phases of a slow request, overlapping requests, keep-alive switched off between requests, contention in two successive event loops; distinct = distinct "
+        "counted at every event and at quiescent points (after each call returns + 2 loop iterations); a concurrent part: a queued caller cancelled, close() at four phases of a slow request, overlapping requests, keep-alive switched off between requests, contention in two successive event loops, setting writes through the family API with one half refused, two objects for one endpoint; a history that cannot leave a stray answer behind needs exactly one transmission for the final healthy request; distinct = distinct "
         "(transport, keep-alive, action sequence, open/close trace) tuples")
 ASSUMPTIONS = [
     "a socket counts as open from MonSocket creation until its close() syscall wrapper runs",
